@@ -448,3 +448,132 @@ def hex_id_fromvalue_rule(chk, P, prefix):
             return False, "TraceId and SpanId are cast from values by different steps: %s vs %s" % (a, b_), [], None
         return True, "", a
     chk.ob("%s.FromValue.hex:siblings" % prefix, "TraceId and SpanId cast from values by the same steps (typed, typed integer, hex text)", sib)
+
+
+# ---- builder discipline ------------------------------------------------------------------------------------------------
+
+def _self_field_names(b, o, depth=0):
+    """Set of first-level field names of `self` (param 1) an origin reads; None if it reads self whole."""
+    out = set()
+    whole = [False]
+
+    def walk(x, d):
+        if d > 25:
+            return
+        k = x[0]
+        if k == "field":
+            root, names = mir.o_field_path(x)
+            if root is not None and mir.o_is_param(root, idx=1) and names:
+                out.add(names[0])
+                return
+            walk(x[1], d + 1)
+        elif k == "param":
+            if x[1] == 1:
+                whole[0] = True
+        elif k == "call":
+            for a in x[1].args:
+                walk(x[1].body.origin(a), d + 1)
+        elif k in ("downcast", "index", "cast", "discr", "repeat"):
+            walk(x[1], d + 1)
+        elif k == "agg":
+            for y in x[2]:
+                walk(y, d + 1)
+        elif k == "phi":
+            for y in x[1]:
+                walk(y, d + 1)
+        elif k == "binop":
+            walk(x[2], d + 1)
+            walk(x[3], d + 1)
+        elif k == "unop":
+            walk(x[2], d + 1)
+    walk(o, depth)
+    return out, whole[0]
+
+
+def builder_rules(chk, P, prefix, select, floor):
+    """Builder / setter methods (`fn with_x(self, x) -> Self'`, `fn x(mut self, x) -> Self`): the value given for one
+    component lands in the like-named field and every other field of the result is the *same* field of `self` - no
+    component is dropped, defaulted or cross-wired.  `select(body) -> bool` picks the methods."""
+    n = 0
+    for b in sorted(P.bodies.values(), key=lambda x: x.key):
+        if b.is_closure or b.argc < 1 or not select(b):
+            continue
+        t0 = mir._strip_lifetimes(b.local_ty(0)).split("<")[0].lstrip("&mut ").strip()
+        t1 = mir._strip_lifetimes(b.local_ty(1)).split("<")[0].lstrip("&mut ").strip()
+        if not t0 or t0 != t1 or "::" not in t0:
+            continue
+        adt = P.adts.get(t0)
+        if not adt or len(adt.get("variants", [])) != 1:
+            continue
+        fields = [f["name"] for f in adt["variants"][0]["fields"]]
+        if len(fields) < 2:
+            continue
+        pnames = [b.local_name(i + 1) for i in range(b.argc)]
+        meth = b.key.split("::")[-1]
+
+        def f(b=b, fields=fields, pnames=pnames, meth=meth, t0=t0):
+            r = b.origin(0)
+            stem = re.sub(r"^(with_|map_|and_|set_)", "", meth)
+            # (1) aggregate literal
+            if r[0] == "agg" and (r[1].get("adt") or "").split("<")[0] == t0:
+                fo = dict(zip(r[1].get("fields") or [], r[2]))
+                changed = []
+                for g, val in fo.items():
+                    names, whole = _self_field_names(b, val)
+                    from_param = any(k == "param" and v != 1 for k, v in roots(val)) or any(k == "const" for k, v in roots(val))
+                    if names == {g} and not from_param and not whole:
+                        continue   # kept
+                    changed.append(g)
+                    bad = names - {g}
+                    if bad:
+                        return False, ("%s builds the result's `%s` from self.%s: a component is cross-wired"
+                                       % (b.key, g, sorted(bad)[0])), [], b.span
+                    if not names and not from_param and not whole:
+                        if val[0] == "agg" and not val[2] and (val[1].get("adt") or "").split("<")[0].endswith("PhantomData"):
+                            continue   # a marker
+                        return False, "%s sets `%s` to %s, dropping the configured value" % (b.key, g, mir.o_str(val)), [], b.span
+                for i, pn in enumerate(pnames[1:], start=2):
+                    if stem in fo and stem != pn:
+                        # the method name says which component it sets (with_panic_lvl(lvl) stores into panic_lvl)
+                        if len(pnames) == 2 and ("param", i) not in roots(fo[stem]):
+                            return False, "%s does not store its argument in the `%s` field" % (b.key, stem), [], b.span
+                        continue
+                    if pn in fo and pn not in changed:
+                        return False, "%s ignores its `%s` argument (the result keeps self.%s)" % (b.key, pn, pn), [], b.span
+                    if pn in fo:
+                        if ("param", i) not in roots(fo[pn]):
+                            return False, "%s does not store its `%s` argument in the `%s` field" % (b.key, pn, pn), [], b.span
+                if stem in fo and changed and stem not in changed:
+                    return False, "%s changes %s but not `%s`" % (b.key, changed, stem), [], b.span
+                return True, "", [b.span]
+            # (2) delegation to the sibling builder of the same component
+            if r[0] == "call" and mir.o_is_param(b.origin(r[1].args[0]) if r[1].args else ("x",), idx=1):
+                cn = r[1].callee.get("name") or ""
+                cstem = re.sub(r"^(with_|map_|and_|set_)", "", cn)
+                if cstem != stem and stem in fields and cstem in fields:
+                    return False, "%s delegates to %s: a different component is replaced" % (b.key, cn), [], r[1].loc
+                return True, "", [r[1].loc]
+            # (3) setter: partial assignments into self, then self returned
+            if mir.o_is_param(r, idx=1) or r[0] in ("phi", "local"):
+                sets = []
+                for bb, j, st in b.statements(normal_only=True):
+                    if st["k"] == "assign" and st["place"]["l"] == 1 and st["place"].get("p"):
+                        pr = [p for p in st["place"]["p"] if isinstance(p, dict) and p.get("n")]
+                        if pr:
+                            sets.append((pr[0]["n"], st))
+                for g, st in sets:
+                    rv = st["rv"]
+                    src = b.origin(rv["op"]) if rv["k"] == "use" else None
+                    if src is None:
+                        continue
+                    for i, pn in enumerate(pnames[1:], start=2):
+                        if ("param", i) in roots(src) and pn in fields and pn != g and not any(g2 == pn for g2, _ in sets):
+                            return False, "%s stores its `%s` argument in the `%s` field" % (b.key, pn, g), [], b.span
+                for i, pn in enumerate(pnames[1:], start=2):
+                    if pn in fields and not any(g == pn for g, _ in sets) and pn == stem:
+                        return False, "%s never stores its `%s` argument" % (b.key, pn), [], b.span
+                return True, "", [b.span]
+            return True, "", [b.span]
+        n += 1
+        chk.ob("%s.builder:%s" % (prefix, b.key), "a builder step stores its argument in the like-named field and keeps every other field of self", f, loc=b.span)
+    chk.floor("builder / setter methods", n, floor)
